@@ -772,9 +772,9 @@ func execC05(run *kernel.Run) {
 			}
 			// a frame that really carries limit+1 bytes under a valid checksum (ping ignores what follows
 			// its 8 bytes): only the size limit can reject it. Costly (30 MiB hashed twice), hence rare.
-			if mc.cmd == "ping" && rng.Intn(3) == 0 {
+			if rng.Intn(8) == 0 {
 				bigp := make([]byte, maxPayloadLen+1)
-				copy(bigp, mc.payload)
+				copy(bigp, rng.Bytes(64))
 				d := refFrame(c.magic, "ping", bigp)
 				fire("payload_really_above_limit")
 				c.judge("ping with a real payload of limit+1 bytes", d, rdr(d, -1, 860), mc, false)
